@@ -76,6 +76,11 @@ async fn scenario(role: Role, rng: &mut Rng, ch: &mut dyn Choose) -> Outc {
         return o;
     }
     let sink = c.sink();
+    // non-blocking sends need the publish-ack callback (documented precondition of the API)
+    let with_cb = rng.bool();
+    if with_cb {
+        sink.set_ack_cb(&app);
+    }
     let mut pm = PeerModel::new(v5);
     let mut ops: Vec<Op> = Vec::new();
     let mut stream: Option<Stream> = None;
@@ -94,9 +99,26 @@ async fn scenario(role: Role, rng: &mut Rng, ch: &mut dyn Choose) -> Outc {
             // ---- plain sends (fail with ExpectPayload while a payload is owed)
             0 | 1 => {
                 let id = next_op_id();
-                let q = ch.pick(3);
+                let q = ch.pick(4);
                 let spec = PubSpec::new("w/p", marker(id, 10 + rng.usize(150)));
-                if q == 0 {
+                if q == 3 && !with_cb {
+                    // (no callback registered: nothing to do in this step)
+                } else if q == 3 {
+                    // non-blocking QoS 1 send (its result is an immediate Ok / Err)
+                    c.settle().await;
+                    let before = c.peer.raw.len();
+                    if let Some(r) = sink.send_qos1_noblock(&spec) {
+                        app.log(Ev::SinkCall { op: id, n: 0, what: "q1-noblock".into() });
+                        app.log(Ev::SinkRet { op: id, n: 0, res: r.clone() });
+                        c.settle().await;
+                        if !r.is_ok() {
+                            o.failing_ops_checked += 1;
+                            if c.peer.raw.len() != before && app.stops().is_empty() {
+                                o.violations.push(("a send that returned an error changed the byte stream".into(), format!("non-blocking QoS 1 send -> {r:?}; {} bytes appeared", c.peer.raw.len() - before)));
+                            }
+                        }
+                    }
+                } else if q == 0 {
                     c.settle().await;
                     let before = c.peer.raw.len();
                     let r = sink.send_qos0(&spec);
